@@ -92,6 +92,10 @@ SCENARIOS = {
         # per-request cache filled by an earlier transaction of the same request
         ('reshape-wiping-consumer-vs-class-delete', [('reshape', 39, [(3, G[3], [inv(1000, 4)])], [cons(2, 1, [])]), ('rc_delete', 39, 1000)],
          [[0, 0, 0, 1, 1, 0], [0, 0, 1, 1, 0, 0], [0, 0, 0, 0, 1, 1, 0]]),
+        # DELETE /allocations/{c} reads c's rows, then deletes them and the consumer in a second transaction: a write that gives
+        # c new rows in between must keep the consumer (seed C08-i: the consumer was removed unconditionally)
+        ('allocations-delete-vs-replace', [('alloc_delete', 2), ('alloc_put', 39, cons(2, 1, [(2, [(0, 2)])]))]),
+        ('allocations-delete-vs-post-move', [('alloc_delete', 3), ('alloc_post', 39, [cons(3, 1, [(6, [(0, 1)])]), cons(2, 1, [])])]),
         ('provider-delete-vs-reshape-claim', [('rp_delete', 6), ('reshape', 39, [(6, G[6], [inv(0, 4), inv(1, 8)])],
                                                                    [cons(5, None, [(6, [(1, 2)])])])]),
     ],
